@@ -17,9 +17,9 @@ import (
 
 type colCase struct {
 	G
-	Partial [][2]int `json:"partial"` // (node index, colour >= 0); nil: no partial colouring
-	Seed    [2]uint64 `json:"seed"`   // PCG seed for Randomized
-	Term    int      `json:"term"`    // DsaturExact terminator: 0 nil, 1 context.Background(), 2 already cancelled
+	Partial [][2]int  `json:"partial"` // (node index, colour >= 0); nil: no partial colouring
+	Seed    [2]uint64 `json:"seed"`    // PCG seed for Randomized
+	Term    int       `json:"term"`    // DsaturExact terminator: 0 nil, 1 context.Background(), 2 already cancelled
 }
 
 // chromatic returns the chromatic number by backtracking (n <= 10).
@@ -178,7 +178,10 @@ func checkCol(c colCase) *vk.Failure {
 	}
 	hs := []heur{
 		{"dsatur", func(p map[int64]int) colResult { k, cs, err := coloring.Dsatur(g, p); return colResult{k, cs, err} }},
-		{"welshpowell", func(p map[int64]int) colResult { k, cs, err := coloring.WelshPowell(g, p); return colResult{k, cs, err} }},
+		{"welshpowell", func(p map[int64]int) colResult {
+			k, cs, err := coloring.WelshPowell(g, p)
+			return colResult{k, cs, err}
+		}},
 		{"sansegundo", func(p map[int64]int) colResult { k, cs, err := coloring.SanSegundo(g, p); return colResult{k, cs, err} }},
 		{"randomized", func(p map[int64]int) colResult {
 			k, cs, err := coloring.Randomized(g, p, rand.NewPCG(c.Seed[0], c.Seed[1]))
